@@ -123,22 +123,70 @@ fn gen_case(t: &mut Tape) -> E2Case {
     let mut names = crate::gen::cover_cells(t, cells, fallible);
     t.shuffle(&mut names);
     let mut type_attrs = String::new();
+    // the Into conversions may be given as one quick return on the trait instruction instead of per-variant #[into(..)]
+    // (only when no instruction name serves both directions: `return` replaces the body of every impl it produces)
+    let mixed_names = names.iter().any(|n| {
+        let (ks, _) = trait_name_cells(n).unwrap();
+        ks.iter().any(|k| *k == FO || *k == FR) && ks.iter().any(|k| *k == OI || *k == RI)
+    });
+    let quick_into = has_into && !mixed_names && !strs && t.chance(1, 4);
+    if quick_into {
+        labels.push("into-by-quick-return".into());
+    }
+    let quick_body = {
+        let mut m = String::new();
+        for (vi, (arm, into_v)) in arms.iter().enumerate() {
+            match arm {
+                Arm::Lit(v) => {
+                    let _ = write!(m, "S::V{} => {}, ", vi, lit_text(*v));
+                }
+                Arm::CatchAll => {
+                    let _ = write!(m, "S::V{}(p) => p.clone(), ", vi);
+                }
+                _ => {
+                    let _ = write!(m, "S::V{} => {}, ", vi, lit_text(into_v.unwrap()));
+                }
+            }
+        }
+        if fallible { format!("return Ok(match @ {{ {} }})", m) } else { format!("return match @ {{ {} }}", m) }
+    };
     for n in &names {
         let (ks, _) = trait_name_cells(n).unwrap();
         let is_from = ks.iter().any(|k| *k == FO || *k == FR);
-        let _ = write!(type_attrs, "#[{}({}{}{})]\n", n, prim, if fallible { ", E" } else { "" }, if with_default && is_from { format!("| _ => {}", default_dsl) } else { String::new() });
+        let tail = if with_default && is_from {
+            format!("| _ => {}", default_dsl)
+        } else if quick_into && !is_from {
+            format!("| {}", quick_body)
+        } else {
+            String::new()
+        };
+        let _ = write!(type_attrs, "#[{}({}{}{})]\n", n, prim, if fallible { ", E" } else { "" }, tail);
     }
     if second {
         let _ = write!(type_attrs, "#[{}(i64{}| _ => {})]\n", if fallible { "try_from_owned" } else { "from_owned" }, if fallible { ", E" } else { "" }, default_dsl);
     }
     let mut variants_attr = String::new();
     let mut variants_plain = String::new();
+    let mut consts: Vec<String> = vec![];
+    let mut const_defs = String::new();
     for (vi, (arm, into_v)) in arms.iter().enumerate() {
         let mut a = String::new();
         match arm {
             Arm::Lit(v) => {
                 labels.push("literal".into());
-                let _ = write!(a, "#[literal({})] ", lit_text(*v));
+                // a literal may also be written as a constant (a lone path is still the value, not a dedication); only without a
+                // by-reference From kind: a constant pattern does not match through `&prim` (Rust, not o2o), like string literals
+                if !strs && !second && !cells[FR] && t.chance(1, 4) {
+                    labels.push("literal:const-path".into());
+                    let name = if *v == hi && prim != "i32" && t.coin() { format!("{}::MAX", prim) } else { format!("K{}{}", if *v < 0 { "M" } else { "" }, v.abs()) };
+                    if !name.contains("::") && !consts.contains(&name) {
+                        consts.push(name.clone());
+                        let _ = write!(const_defs, "pub const {}: {} = {};\n", name, prim, v);
+                    }
+                    let _ = write!(a, "#[literal({})] ", name);
+                } else {
+                    let _ = write!(a, "#[literal({})] ", lit_text(*v));
+                }
             }
             Arm::Range(x, y) => {
                 labels.push("pattern:range".into());
@@ -170,7 +218,7 @@ fn gen_case(t: &mut Tape) -> E2Case {
                 a = format!("{}{}", ded, a);
             }
         }
-        if has_into {
+        if has_into && !quick_into {
             match arm {
                 Arm::Lit(_) => {}
                 Arm::CatchAll => {
@@ -207,6 +255,7 @@ fn gen_case(t: &mut Tape) -> E2Case {
     // ---- harness: the first-match model ------------------------------------------------------------
     let mut h = String::new();
     h.push_str("#[derive(Debug, Clone, PartialEq)] pub struct E(pub i64);\npub type Str = &'static str;\n");
+    h.push_str(&const_defs);
     let _ = write!(h, "#[derive(Debug, Clone, PartialEq)] pub enum S {{ {} }}\n", variants_plain);
     let eq = |v: i64| -> String { if strs { format!("v == \"{}\"", ALPHABET[v as usize]) } else { format!("v == {}", v) } };
     let mut model = String::new();
